@@ -15,6 +15,8 @@ list=$S/list
 for m in selftest/mutants/*.diff; do echo "$m $(cat ${m%.diff}.props) violation"; done > $list
 for m in selftest/harmless/*.diff; do echo "$m $(cat ${m%.diff}.props) quiet"; done >> $list
 for d in seeded/*/; do echo "${d}patch.diff $(python3 -c "import json;print(json.load(open('${d}meta.json'))['property'])") violation"; done >> $list
+# optional first argument: a regular expression selecting corpus entries by path (e.g. 'seeded/C1[0-9]')
+if [ -n "$1" ]; then grep -E "$1" $list > $list.sel; mv $list.sel $list; fi
 worker() { # k
   k=$1; wt=$S/wt$k; root=$S/root$k
   git -C /repo worktree add -q --detach $wt HEAD || exit 2
